@@ -197,6 +197,9 @@ SER_TEMPLATES = [
     (rf'^letmuts=String::new\(\);for\(key,value\)in{ID}\{{s\.push_str\(&format!\("\{{\}}=\{{\}}\\n",key,value\)\);\}}s$', f"SExt {EXT_ID['EnvMap']}"),
     (rf'^{ID}\.into_iter\(\)\.map\(\|rt\|rt\.to_string\(\)\)\.collect::<Vec<String>>\(\)\.join\("\\n"\)$', f"SExt {EXT_ID['TypesSet']}"),
     (rf'^{ID}\.into_iter\(\)\.map\(\|u\|u\.as_str\(\)\)\.collect::<Vec<&str>>\(\)\.join\(" "\)$', f"SExt {EXT_ID['UrlList']}"),
+    # the same two serialisers after proposed_fixes/C20-*.patch (sorted; no line end after the last entry)
+    (rf'^letmutlines={ID}\.iter\(\)\.map\(\|\(key,value\)\|format!\("\{{\}}=\{{\}}",key,value\)\)\.collect::<Vec<_>>\(\);lines\.sort\(\);lines\.join\("\\n"\)$', f"SExt {EXT_ID['EnvMap']}"),
+    (rf'^letmuttypes={ID}\.into_iter\(\)\.map\(\|rt\|rt\.to_string\(\)\)\.collect::<Vec<String>>\(\);types\.sort\(\);types\.join\("\\n"\)$', f"SExt {EXT_ID['TypesSet']}"),
     (rf'^{ID}\.format\("%Y-%m-%d"\)\.to_string\(\)$', f"SExt {EXT_ID['NaiveDate']}"),
     (rf'^crate::fields::format_origin\(category,origin\)$', f"SExt {EXT_ID['Origin']}"),
 ]
